@@ -195,7 +195,7 @@ def confirm(v):
     return (not same_value(ri, rs, en, ed)), out
 
 
-def validate(prog, ovs, rng, n):
+def validate(prog, ovs, rng, n, rep=None, prop=PROP):
     """translator validation: concrete inputs through the MIR executor and through the native crate, bit for bit"""
     cases = []
     vals = [0, 1, -1, 2, -2, 10, 100, 7, -7, 99, 12345, -98765, 10 ** 19, 10 ** 20 - 1, -(10 ** 25), 2 ** 64, 2 ** 63 - 1]
@@ -222,6 +222,16 @@ def validate(prog, ovs, rng, n):
     S.DIGIT_BOUND[0] = 80
     S.WORD_BOUND[0] = 8
     for (ov, x, sa, y, sb), nat in zip(cases, native):
+        if rep is not None:
+            bad = nat.startswith('PANIC') or nat.startswith('UNKNOWN')
+            if not bad:
+                ri, rs = H.parse_dec(nat)
+                en, ed = exact_binop(ov['op'], x, sa, y, sb)
+                bad = not same_value(ri, rs, en, ed)
+            if bad:
+                H.probe_violation(rep, prop, 'native %s %s %s with (%d@%d, %d@%d) gives %s' % (ov['lhs'], ov['op'], ov['rhs'], x, sa, y, sb, nat),
+                                  {'kind': 'binop', 'ov': ov, 'ga': sa, 'gb': sb, 's0sym': False}, {'x': x, 'y': y, 's0': 0}, nat)
+                continue
         stats = E.Stats()
         m = E.Machine(prog, (), [], stats, loop_bound=2000)
         try:
@@ -291,7 +301,7 @@ def main(tier):
                        'normalized() contract restricted to <= %d trailing zeros' % K.NORMALIZED_MAX_TRAILING_ZEROS]
     rep.outside = ['|scale| > 2^60', 'scale gaps not listed in bounds.scale_gaps', 'Sum over iterators (covered by C19 inductive step)']
     sys.stderr.write('[C01] %d overloads, %d tasks\n' % (len(ovs), len(tasks)))
-    n, mism = validate(prog, ovs, rng, 300 if tier == 'quick' else 3000)
+    n, mism = validate(prog, ovs, rng, 300 if tier == 'quick' else 3000, rep)
     rep.validated = n
     rep.validation_mismatches = mism
     results = H.run_parallel(tasks, worker, progress=2000)
